@@ -95,3 +95,46 @@ func verif_Verifier_VerifyNewWorkConn(v Verifier, m *msg.NewWorkConn) {
 	}
 	verif.Ensures(m.Timestamp == ts && m.PrivilegeKey == key && m.RunID == m.RunID, "message_unchanged")
 }
+
+// ---------------------------------------------------------------- the client side: authentication setters
+
+// The setters sign a message: they touch nothing but that message's
+// authentication fields. With the token method what they put into the message
+// is the keyed digest of the token and the timestamp, never the token (C05
+// "only digests of secrets in login messages").
+//
+//verif:contract (~/pkg/auth.Setter).SetPing
+//verif:impls *~/pkg/auth.TokenAuthSetterVerifier *~/pkg/auth.OidcAuthProvider
+//verif:props C14 C05
+//verif:modifies H.pkg.msg.Ping.
+func verif_Setter_SetPing(s Setter, m *msg.Ping) {
+	verif.Requires(m != nil, "message_present")
+	err := s.SetPing(m)
+	if t, ok := s.(*TokenAuthSetterVerifier); ok && err == nil && slices.Contains(t.additionalAuthScopes, v1.AuthScopeHeartBeats) {
+		verif.Ensures(m.PrivilegeKey == util.GetAuthKey(t.token, m.Timestamp), "ping_carries_the_keyed_digest")
+	}
+}
+
+//verif:contract (~/pkg/auth.Setter).SetNewWorkConn
+//verif:impls *~/pkg/auth.TokenAuthSetterVerifier *~/pkg/auth.OidcAuthProvider
+//verif:props C05
+//verif:modifies H.pkg.msg.NewWorkConn.
+func verif_Setter_SetNewWorkConn(s Setter, m *msg.NewWorkConn) {
+	verif.Requires(m != nil, "message_present")
+	err := s.SetNewWorkConn(m)
+	if t, ok := s.(*TokenAuthSetterVerifier); ok && err == nil && slices.Contains(t.additionalAuthScopes, v1.AuthScopeNewWorkConns) {
+		verif.Ensures(m.PrivilegeKey == util.GetAuthKey(t.token, m.Timestamp), "work_connection_carries_the_keyed_digest")
+	}
+}
+
+//verif:contract (~/pkg/auth.Setter).SetLogin
+//verif:impls *~/pkg/auth.TokenAuthSetterVerifier *~/pkg/auth.OidcAuthProvider
+//verif:props C05
+//verif:modifies H.pkg.msg.Login.
+func verif_Setter_SetLogin(s Setter, m *msg.Login) {
+	verif.Requires(m != nil, "message_present")
+	err := s.SetLogin(m)
+	if t, ok := s.(*TokenAuthSetterVerifier); ok && err == nil {
+		verif.Ensures(m.PrivilegeKey == util.GetAuthKey(t.token, m.Timestamp), "login_carries_the_keyed_digest")
+	}
+}
